@@ -197,7 +197,8 @@ async def drive(data_parts, handler_kind, behaviour, chain_outcome, upload, extr
             p.connection_lost(None)
             break
         feed(part)
-        if fire_timeout == i:
+        if fire_timeout == i and p.timeout_handle is not None and not p.timeout_handle.cancelled():
+            # the event loop runs the callback only if the timer is still armed
             try:
                 p._handle_timeout()
             except Exception as e:  # noqa: BLE001
@@ -314,7 +315,7 @@ def bank(focus=None):
             return dict(confirmed=True, input=dict(chain=list(outcomes)), observed=dict(result=repr(res), raised=repr(raised), violated=bad),
                         clause="the first rejecting component's response is what the client receives; later components are not consulted")
     # ---- C07 / C08: request lines x segmentations x trailing reads ---------------------------------
-    for line, chain, up in itertools.product(LINES, (None, "allow", "deny"), (None, "ok")):
+    for line, chain, up in itertools.product(LINES, (None, "allow", "deny", "raise"), (None, "ok")):
         base = None
         for how in ("one", "two", "bytes", "crlf-split", "crlf-split-3", "three-late"):
             tried += 1
@@ -334,8 +335,8 @@ def bank(focus=None):
             total = r["handler_calls"] + (len(r["upload_calls"]) if r["upload_calls"] else 0)
             if total > 1:
                 bad.append(f"{total} handler/upload invocations on one connection")
-            if chain == "deny" and total:
-                bad.append("handler/upload ran although the chain refused")
+            if chain in ("deny", "raise") and total:
+                bad.append("handler/upload ran although the chain refused" if chain == "deny" else "handler/upload ran although a chain component raised")
             is_titan = line.startswith(b"titan://")
             key = (r["out"], r["handler_calls"], tuple(r["upload_calls"] or ()))
             if base is None:
@@ -351,7 +352,7 @@ def bank(focus=None):
                 bad.append(f"invalid request answered {r['out'][:20]!r} instead of 59")
             if is_titan and not up and complete and not r["out"].startswith(b"50 ") and not must_refuse:
                 bad.append(f"titan request with uploads disabled answered {r['out'][:20]!r} instead of 50")
-            if not must_refuse and complete and not is_titan and chain != "deny" and r["handler_calls"] != 1:
+            if not must_refuse and complete and not is_titan and chain not in ("deny", "raise") and r["handler_calls"] != 1:
                 bad.append("a valid request did not reach the handler")
             if is_titan and up and r["upload_calls"]:
                 pth, size, content = r["upload_calls"][0]
